@@ -19,6 +19,9 @@ MNext == /\ \/ (Anns < MaxAnn /\ \E p \in Peers, h \in Hashes : Announce(p, h))
             \/ Tick
             \/ LoopPoll
             \/ LoopWake
+            \/ LoopPollHold
+            \/ LoopWakeHold
+            \/ LoopCrit
          /\ hist' = Append(hist, lab')
 
 \* every explored transition is printed with one concrete schedule reaching it
@@ -40,6 +43,16 @@ NEv(e) == Cardinality({i \in 1..Len(hist') : hist'[i].ev = e})
 CapKind == "hold" \o ToString(NEv("AnnounceHold")) \o "resume" \o ToString(NEv("AnnounceResume")) \o (IF out' # <<>> THEN "ask" ELSE "queue")
 ExportCap == IF ExportOn /\ lab'.ev = "AnnounceResume" /\ RandomElement(1..SampleMod) = 1
              THEN PrintT(ToJson([kind |-> CapKind, sched |-> hist'])) ELSE TRUE
+\* critical-section family (MC_Tracker_crit.cfg): every exit from the critical section, keyed by what ran inside it
+LastHold == CHOOSE i \in 1..Len(hist) : hist[i].ev \in {"LoopPollHold", "LoopWakeHold"} /\ \A j \in (i + 1)..Len(hist) : hist[j].ev \notin {"LoopPollHold", "LoopWakeHold"}
+Inside == {hist[i] : i \in (LastHold + 1)..Len(hist)}
+CritKind == "crit" \o (IF \E e \in Inside : e.ev = "Arrive" /\ e.h = obj.h THEN "-arrived" ELSE "")
+                   \o (IF \E e \in Inside : e.ev = "Arrive" /\ e.h # obj.h THEN "-otherarrived" ELSE "")
+                   \o (IF \E e \in Inside : e.ev \in {"Announce", "AnnounceSplit", "RegisterLate", "AnnounceResume"} THEN "-announced" ELSE "")
+                   \o (IF Len(pend) > 1 THEN "-more" ELSE "-last")
+                   \o (IF out' # <<>> THEN "-emit" ELSE IF Len(pend') < Len(pend) THEN "-drop" ELSE "-move")
+ExportCrit == IF ExportOn /\ lab'.ev = "LoopCrit" /\ RandomElement(1..SampleMod) = 1
+              THEN PrintT(ToJson([kind |-> CritKind, sched |-> hist'])) ELSE TRUE
 \* simulation export: every step (the runner keeps maximal walks)
 ExportAll == IF ExportOn THEN PrintT(ToJson([sched |-> hist'])) ELSE TRUE
 =============================================================================
